@@ -1,2 +1,34 @@
-From BFS Require Import Layers.Call Layers.HiddenList.
-Example placeholder_C18 : is_hidden [47; 104] [[47; 104]] = Some true. Proof. reflexivity. Qed.
+(** C18 — VolumeFS is the identity layer where there are no volumes (Linux
+    half; on Linux [filepath.VolumeName] is empty for every string, so the
+    stored volume is "" whatever the constructor was given — this fact about
+    the standard library is validated by the correspondence stream, which
+    passes several volume arguments). *)
+From BFS Require Import Layers.Call Layers.LayerSpec.
+From BFS Require Import Proofs.PrefixFacts.
+
+(** every method is forwarded, never rejected, as the same method on the
+    cleaned path(s) with the same other arguments *)
+Theorem C18_identity : forall c, volumefs_call c = Fwd (vol_clean_call c).
+Proof. exact volumefs_identity. Qed.
+Print Assumptions C18_identity.
+
+(** on cleaned arguments the layer changes nothing at all *)
+Theorem C18_identity_on_cleaned :
+  forall m a aux, two_paths m = false -> cleaned a ->
+  volumefs_call (mkCall m a [] aux) = Fwd (mkCall m a [] aux).
+Proof. exact volumefs_identity_cleaned. Qed.
+Print Assumptions C18_identity_on_cleaned.
+
+(** stacking the layer twice equals once *)
+Theorem C18_idempotent : forall c, vol_clean_call (vol_clean_call c) = vol_clean_call c.
+Proof. exact vol_clean_call_idem. Qed.
+Print Assumptions C18_idempotent.
+
+(** link targets are returned lexically cleaned *)
+Theorem C18_readlink : forall l, volumefs_readlink_result l = clean l /\ cleaned (clean l).
+Proof. exact volumefs_readlink_spec. Qed.
+Print Assumptions C18_readlink.
+
+Example C18_example :
+  volumefs_call (mkCall MRemove [47;97;47;47;98;47;46;46] [] []) = Fwd (mkCall MRemove [47;97] [] []).
+Proof. vm_compute. reflexivity. Qed.
